@@ -255,8 +255,16 @@ def check_rescale(s):
             n += 1
             func = pp.self_attrs.get("func")
             space = pp.self_attrs.get(space_attr)
-            ok = isinstance(func, Closure) and func.name == which
-            s.ob("C13.5", f"{cls}.__init__", ok, f"{cls}.func is the `{which}` map of rescale_box", s.loc(cls, "__init__"), key="rescale-direction",
+            ok = isinstance(func, Closure)
+            if ok:
+                # decide the direction by what the function computes, not by its name
+                xs_ = ("param", "$x")
+                refenv = s.refprog(bu, RESCALE_REF, {"box": ("attr", ("param", "env"), inner), "min": ("param", "min"), "max": ("param", "max")})
+                refenv["x"] = xs_
+                want_f = s.ref(bu, "(x - c) / g" if which == "backward" else "g * x + c", refenv)
+                ok = nzu.canon(bu.apply(func, (xs_,), ())) == nzu.canon(want_f)
+            s.ob("C13.5", f"{cls}.__init__", ok, f"{cls}.func computes the `{which}` map of rescale_box(env.{inner}, min, max): " + ("(x − c)/g" if which == "backward" else "g·x + c"),
+                 s.loc(cls, "__init__"), key="rescale-direction",
                  detail=repr(func), necessary_for="the inner environment is fed the action mapped onto the ORIGINAL bounds / the observation mapped onto the NEW bounds")
             okb = isinstance(space, tuple) and space[0] == "record" and space[1].endswith(".Box")
             fb = fields(space) if okb else {}
